@@ -88,15 +88,46 @@ func buildScript(decls []string, axioms []string, o *Obl, forCVC5 bool, slice bo
 				keep[i] = true
 			}
 		}
+		// depth-limited slicing (o.SliceDepth > 0): breadth-first, at most that many rounds, and
+		// symbols occurring in a large share of the hypotheses ("hubs": the receiver, initial heap
+		// arrays) do not pull hypotheses in. Any subset of the hypotheses is sound for an unsat answer.
+		hub := map[string]bool{}
+		if o.SliceDepth > 0 && slice {
+			cnt := map[string]int{}
+			for i := range pcs {
+				seen := map[string]bool{}
+				for _, t := range toks[i] {
+					if !seen[t] {
+						seen[t] = true
+						cnt[t]++
+					}
+				}
+			}
+			lim := len(pcs) / 6
+			if lim < 8 {
+				lim = 8
+			}
+			for t, c := range cnt {
+				if c > lim {
+					hub[t] = true
+				}
+			}
+		}
+		round := 0
 		for changed := true; changed; {
+			if o.SliceDepth > 0 && slice && round >= o.SliceDepth {
+				break
+			}
+			round++
 			changed = false
+			var fresh []string
 			for i := range pcs {
 				if keep[i] {
 					continue
 				}
 				hit := len(toks[i]) == 0 // closed facts (no symbols) are kept
 				for _, t := range toks[i] {
-					if syms[t] {
+					if syms[t] && !hub[t] {
 						hit = true
 						break
 					}
@@ -104,10 +135,11 @@ func buildScript(decls []string, axioms []string, o *Obl, forCVC5 bool, slice bo
 				if hit {
 					keep[i] = true
 					changed = true
-					for _, t := range toks[i] {
-						syms[t] = true
-					}
+					fresh = append(fresh, toks[i]...)
 				}
+			}
+			for _, t := range fresh {
+				syms[t] = true
 			}
 		}
 		for i, c := range pcs {
@@ -339,7 +371,39 @@ func dischargeAll(v *V, opts SolveOpts) {
 	if quickT > opts.Timeout {
 		quickT = opts.Timeout
 	}
+	if opts.DumpDir != "" {
+		for _, o := range v.obls {
+			s, _ := scripts(o, true)
+			os.WriteFile(fmt.Sprintf("%s/%s.%d.smt2", opts.DumpDir, sanitize(o.Name), o.Inst), []byte(s), 0o644)
+		}
+	}
+	// stage 0: small neighbourhoods of the goal first (most obligations are local facts)
+	for _, depth := range []int{1, 3} {
+		depth := depth
+		var todo []*Obl
+		for _, o := range v.obls {
+			if o.Expect == "unsat" && o.Status != "unsat" && !(o.Goal == "true") && !o.NoPre {
+				todo = append(todo, o)
+			}
+		}
+		stage(todo, opts.Workers, func(o *Obl) {
+			o.SliceDepth = depth
+			s, _ := scripts(o, true)
+			o.SliceDepth = 0
+			if opts.DumpDir != "" {
+				os.WriteFile(fmt.Sprintf("%s/%s.%d.d%d.smt2", opts.DumpDir, sanitize(o.Name), o.Inst, depth), []byte(s), 0o644)
+			}
+			r := runSolver(context.Background(), solvers[0], s, 2*time.Second)
+			o.TimeS += r.dur.Seconds()
+			if r.status == "unsat" {
+				o.Status, o.Solver, o.Output = r.status, r.solver, r.out
+			}
+		})
+	}
 	stage(v.obls, opts.Workers, func(o *Obl) {
+		if o.Status == "unsat" && o.Expect == "unsat" {
+			return
+		}
 		if o.Goal == "true" && o.Expect == "unsat" {
 			o.Status, o.Solver = "unsat", "trivial"
 			return
@@ -349,7 +413,8 @@ func dischargeAll(v *V, opts SolveOpts) {
 			os.WriteFile(fmt.Sprintf("%s/%s.%d.smt2", opts.DumpDir, sanitize(o.Name), o.Inst), []byte(s), 0o644)
 		}
 		r := runSolver(context.Background(), solvers[0], s, quickT)
-		o.Status, o.Solver, o.TimeS, o.Output = r.status, r.solver, r.dur.Seconds(), r.out
+		o.Status, o.Solver, o.Output = r.status, r.solver, r.out
+		o.TimeS += r.dur.Seconds()
 		if r.status == "sat" {
 			o.Model = r.out
 		}
